@@ -78,6 +78,12 @@ def generate(seed, tier="quick", faults=True, light=False, **kw):
     plan = {"family": NAME, "seed": seed, "files": files, "secrets": secrets, "xdisk": xdisk, "opts": o,
             "entry": entry, "in": in_rel, "out": out_rel, "dump": dump, "knobs": knobs, "faults": [],
             "baseline": r.random() < 0.5}
+    if not single and entry in ("cli", "files"):
+        # the directory arguments spelled with a trailing slash or "/."
+        plan["in_suffix"] = r.choice(["", "", "", "/", "/."])
+        plan["out_suffix"] = r.choice(["", "", "", "/"])
+    if dump and r.random() < 0.3:
+        xdisk["files"][dump] = "0.0.0.0\tstale map line from an earlier run\n" * r.randint(1, 60)
     if r.random() < 0.08 and not single and not light:
         plan["pre_same_run"] = True        # library use: this process has already anonymized the same tree once, elsewhere
     if dump and len(files) >= 2 and r.random() < 0.04 and not light:
@@ -197,7 +203,8 @@ def build_world(plan, drop=()):
         disk["files"][f["path"]] = G.render_file(f["lines"], "a", plan["secrets"])
     for p, t in plan["xdisk"]["files"].items():
         disk["files"][p] = t.encode("latin-1") if isinstance(t, str) else t
-    step = {"entry": plan["entry"], "opts": plan["opts"], "in": plan["in"], "out": plan["out"], "dump": plan["dump"]}
+    step = {"entry": plan["entry"], "opts": plan["opts"], "in": plan["in"], "out": plan["out"], "dump": plan["dump"],
+            "in_suffix": plan.get("in_suffix", ""), "out_suffix": plan.get("out_suffix", "")}
     sysfaults = [f for f in plan["faults"] if f["kind"] not in ("undecodable", "out_is_dir", "out_parent_is_file")]
     pre = []
     if plan.get("pre_same_run") and not any(f["kind"] in ("crash", "interrupt") for f in sysfaults):
@@ -249,7 +256,7 @@ def _named(logs, level, abs_path):
     """Is the file named in a record at WARNING or above?  (`level` kept for readability: the property
     says "reported", it does not fix the level.)"""
     for lv, msg, tb in logs:
-        if lv in ("WARNING", "ERROR", "CRITICAL") and abs_path in msg.replace("/./", "/"):
+        if lv in ("WARNING", "ERROR", "CRITICAL") and abs_path in W.norm_paths(msg):
             return True
     return False
 
